@@ -385,14 +385,17 @@ def dedupe(ck, rule):
     keys = []
     cur = v
     helper = None
-    while cur[0] == "app":
-        a = dict(cur[3])
-        if "key" not in a or "pairs" not in a:
+    param = V(fn.call_params()[0].name)
+    while cur[0] == "app" and len(cur[3]) == 2:
+        vals = [val for _, val in cur[3]]
+        kvals = [x for x in vals if key_path(ctx, x) is not None]
+        others = [x for x in vals if key_path(ctx, x) is None]
+        if len(kvals) != 1 or len(others) != 1:
             break
         helper = cur[1]
-        keys.append(key_path(ctx, a["key"]))
-        cur = a["pairs"]
-    ck.judge(cur == V("pairs") and len(keys) == 2 and set(keys) == {("query", "siteId"), ("reference", "siteId")},
+        keys.append(key_path(ctx, kvals[0]))
+        cur = others[0]
+    ck.judge(cur == param and len(keys) == 2 and set(keys) == {("query", "siteId"), ("reference", "siteId")},
              rule, short(fn), w, "de-duplication = one-per-key by query label composed with one-per-key by reference label",
              found=f"keys {keys} over {T.show(cur)[:60]}", required="both ('query','siteId') and ('reference','siteId')")
     if helper is None:
@@ -418,7 +421,8 @@ def dedupe(ck, rule):
                         raise AnalysisError(f"{where(hf, e.node)}: groups are not produced by itertools.groupby")
                     s = sort_spec(gb[2][0])
                     k = gb[2][1] if len(gb[2]) > 1 else dict(gb[3]).get("key")
-                    ck.judge(s is not None and s[1] == k and s[0] == V("pairs") and k == V("key"), rule, short(hf) + ":grouping",
+                    hp = [V(pp.name) for pp in hf.call_params()]
+                    ck.judge(s is not None and s[1] == k and s[0] in hp and k in hp and s[0] != k, rule, short(hf) + ":grouping",
                              where(hf, e.node), "all pairs are sorted and grouped by the same key parameter",
                              found=T.show(gb)[:160])
     ck.floor(f"{rule} emissions of the one-per-key helper", n, 1)
